@@ -994,6 +994,9 @@ def run(ck):
     from ..x_valuewalk import guard_obligations, canonical
 
     ck.repo = canonical(ck.repo, ['tornado/escape.py'], keep_names=('_DEFAULT_AUTOESCAPE',))
+    from ..x_valuewalk import split_ifexp_assign
+
+    ck.repo = split_ifexp_assign(ck.repo, 'tornado/escape.py', ['make_link'])
 
     guard_obligations(ck, [])
     ck.rule("C22.escape-first", "linkify applies the URL regex to xhtml_escape(text) and returns the substitution result")
